@@ -73,9 +73,10 @@ func genC18(r *gen.Rand) *C18Case {
 	rootSpelling := r.Intn(6)
 	abs := func(p string) string { return "@ABS@/" + p } // resolved at materialisation time
 	input := "in.yaml"
+	extraInput := "" // a second command-line input, spelled relative to the root like the first
 	vectors := []string{"parent-dotdot", "parent-absolute", "parent-wildcard", "parent-list", "symlink-relative", "symlink-absolute",
 		"symlink-chain", "dir-symlink", "symlink-name-parent", "input-dotdot", "virtual-ext", "parent-dotdot-sub",
-		"symlink-hops", "symlink-hops", "symlink-via-dirlink", "setroot-sibling-prefix", "setroot-through-dirlink", "parent-wildcard-dir", "preread-then-narrow", "parent-wildcard-mixed", "parent-stdin-name", "dir-symlink-trailing-slash"}
+		"symlink-hops", "symlink-hops", "symlink-via-dirlink", "setroot-sibling-prefix", "setroot-through-dirlink", "parent-wildcard-dir", "preread-then-narrow", "parent-wildcard-mixed", "parent-stdin-name", "dir-symlink-trailing-slash", "input-dotdot-through-dirlink"}
 	c.Vector = gen.PickAny(r, vectors)
 	target := func(outside, inside string) string {
 		if c.Benign {
@@ -215,6 +216,19 @@ func genC18(r *gen.Rand) *C18Case {
 			in["$parent"] = target("dl/d", "dl/s")
 		}
 		c.NeedsOutside = !c.Benign
+	case "input-dotdot-through-dirlink":
+		// a second input spelled <directory link>/../d.yaml: lexically that is
+		// root/d.yaml (what the confined open uses); physically, ".." of the
+		// link's target, where a decoy of the same name lives
+		w.Dirs = append(w.Dirs, c18Outside+"/deep", c18Root+"/sub/deep")
+		w.Links = append(w.Links, procsim.Link{Path: c18Root + "/dl", Target: target("../outside/deep", "sub/deep")})
+		if r.Chance(0.7) {
+			put(c18Root+"/d.yaml", map[string]any{"inner_d": 1})
+		}
+		extraInput = "dl/../d.yaml"
+		if rootSpelling == 5 || rootSpelling == 6 {
+			rootSpelling = r.Intn(5)
+		}
 	case "parent-stdin-name":
 		// a $parent naming a layer called "-" (the spelling of standard
 		// input) next to the decoys; nothing is on stdin
@@ -299,7 +313,10 @@ func genC18(r *gen.Rand) *C18Case {
 		// decoys for this vector are the files of root/ itself; handled by states through the generic outside dir too
 	}
 	c.Args = []string{"-r", rootArg, inputArg}
-	if !c.RootAll && !c.API && r.Chance(0.25) {
+	if extraInput != "" {
+		c.Args = append(c.Args, strings.TrimSuffix(inputArg, input)+extraInput)
+	}
+	if !c.RootAll && !c.API && extraInput == "" && r.Chance(0.25) {
 		// the same confinement reached through nested SetRoot calls on the library
 		c.API = true
 		c.Input = inputArg
@@ -524,8 +541,25 @@ func judgeC18(e *Env, c *C18Case, tag string, run int64) (*c18Obs, error) {
 			inv.Stdin = string(js) + "\n"
 		}
 		if state == "eacces" {
+			// (the injection is keyed on the base name too — os.Root opens
+			// component by component —, so a decoy that shares its base name
+			// with a file inside the root is left out: the fault would hit
+			// the legitimate open)
+			inside := map[string]bool{}
+			for _, f := range c.World.Files {
+				if strings.HasPrefix(f.Path, c18Root+"/") {
+					inside[filepath.Base(f.Path)] = true
+				}
+			}
+			for _, l := range c.World.Links {
+				if strings.HasPrefix(l.Path, c18Root+"/") {
+					inside[filepath.Base(l.Path)] = true
+				}
+			}
 			for _, p := range c.outsideFiles() {
-				inv.Injects = append(inv.Injects, procsim.Inject{Syscall: "openat", Path: p, Errno: "EACCES"})
+				if strings.HasPrefix(p, c18Root+"/") || !inside[filepath.Base(p)] {
+					inv.Injects = append(inv.Injects, procsim.Inject{Syscall: "openat", Path: p, Errno: "EACCES"})
+				}
 			}
 		}
 		if state == "eacces-inside" {
